@@ -257,12 +257,15 @@ func cmdMeasure(args []tok) string {
 			var ms0, ms1 runtime.MemStats
 			runtime.ReadMemStats(&ms0)
 			t0 := time.Now()
-			recs := 0
+			recs, fields := 0, 0
 			switch proto {
 			case "ipfix":
 				m, _ := ipfix.NewDecoder(addr, p).Decode(mc)
 				if m != nil {
 					recs = len(m.DataSets)
+					for _, r := range m.DataSets {
+						fields += len(r)
+					}
 					if recs > 0 {
 						m.JSONMarshal(new(bytes.Buffer))
 					}
@@ -271,6 +274,9 @@ func cmdMeasure(args []tok) string {
 				m, _ := netflow9.NewDecoder(addr, p).Decode(mc9)
 				if m != nil {
 					recs = len(m.DataSets)
+					for _, r := range m.DataSets {
+						fields += len(r)
+					}
 					if m.DataSets != nil {
 						m.JSONMarshal(new(bytes.Buffer))
 					}
@@ -295,7 +301,7 @@ func cmdMeasure(args []tok) string {
 			}
 			el := time.Since(t0)
 			runtime.ReadMemStats(&ms1)
-			return fmt.Sprintf("R:%d A:%d T:%d L:%d", recs, ms1.TotalAlloc-ms0.TotalAlloc, el.Milliseconds(), len(p))
+			return fmt.Sprintf("R:%d A:%d T:%d L:%d F:%d", recs, ms1.TotalAlloc-ms0.TotalAlloc, el.Milliseconds(), len(p), fields)
 		})
 		outs = append(outs, res)
 		if res == "PANIC" || res == "HANG" {
